@@ -558,7 +558,7 @@ func drawWeights(t *rapid.T, n int) []float64 {
 
 func TestLeastSquares(t *testing.T) {
 	ev.Rule(rule)
-	ev.Rapid(t, "c15-ls", 1200, 100000, func(rt *rapid.T) {
+	ev.Rapid(t, "c15-ls", 6000, 100000, func(rt *rapid.T) {
 		basis := rapid.SampledFrom([][]string{{"1", "x"}, {"1", "x", "x2"}, {"1", "sin", "cos"}, {"1", "x", "exp"}, {"1", "x", "x2", "x3"}, {"x", "sin"}, {"1"}, {"1", "x", "x2", "x3", "x4"}}).Draw(rt, "basis")
 		n := rapid.IntRange(len(basis)+1, 40).Draw(rt, "n")
 		c := &LSCase{Xs: drawXs(rt, n), Basis: basis, W: drawWeights(rt, n)}
@@ -571,7 +571,7 @@ func TestLeastSquares(t *testing.T) {
 
 func TestPolynomial(t *testing.T) {
 	ev.Rule(rule)
-	ev.Rapid(t, "c15-poly", 1500, 120000, func(rt *rapid.T) {
+	ev.Rapid(t, "c15-poly", 8000, 120000, func(rt *rapid.T) {
 		d := rapid.SampledFrom([]int{3, 4, 2, 1, 5, 6, 0}).Draw(rt, "degree")
 		n := rapid.IntRange(d+2, 40).Draw(rt, "n")
 		c := &PolyCase{Xs: drawXs(rt, n), Degree: d, W: drawWeights(rt, n)}
@@ -594,7 +594,7 @@ func TestPolynomial(t *testing.T) {
 
 func TestLOESS(t *testing.T) {
 	ev.Rule(rule)
-	ev.Rapid(t, "c15-loess", 800, 64000, func(rt *rapid.T) {
+	ev.Rapid(t, "c15-loess", 4000, 64000, func(rt *rapid.T) {
 		d := rapid.IntRange(0, 2).Draw(rt, "degree")
 		n := rapid.IntRange(d+3, 40).Draw(rt, "n")
 		c := &LoessCase{Xs: drawXs(rt, n), Degree: d, Bump: rapid.Float64Range(0.5, 5).Draw(rt, "bump")}
